@@ -1,0 +1,136 @@
+//go:build verif
+
+package geom
+
+// TWKB body encoder (C07, C20): every writer routine is index-safe and total
+// for every geometry satisfying the type invariants, touches only its writer
+// and the writer's own buffers, and only ever encodes ordinates of non-empty
+// points (an empty Point has no ordinates: the format cannot express it
+// inside a MultiPoint).
+
+//@ prop C07,C20
+
+// writer invariant: 2..4 dimensions matching the coordinate type, precisions in range
+//@ pred TwInv(w) = w != nil && w.ctype < 4 && w.dimensions == Dim(w.ctype) && (w.hasZ <==> HasZ(w.ctype)) && (w.hasM <==> HasM(w.ctype)) && (w.hasExt <==> (w.hasZ || w.hasM)) && 0 - 8 <= w.precXY && w.precXY <= 7 && 0 <= w.precZ && w.precZ <= 7 && 0 <= w.precM && w.precM <= 7
+// what the body routines may change in the writer
+//@ pred TwBody(w) = TwInv(w) && onlychanged(w, twkbHeaders, twkbBBox, twkbContents, kind, isEmpty, refpoint, bboxValid, bboxMin, bboxMax) && Grown(w.twkbHeaders, old(w.twkbHeaders)) && Grown(w.twkbBBox, old(w.twkbBBox)) && Grown(w.twkbContents, old(w.twkbContents))
+
+//@ func newtwkbWriter
+//@   requires 0 - 8 <= precXY && precXY <= 7 && 0 <= precZ && precZ <= 7 && 0 <= precM && precM <= 7
+//@   ensures result != nil && fresh(result) && TwInv(result) && (result.hasZ <==> hasZ) && (result.hasM <==> hasM) && cap(result.twkbHeaders) == 0 && cap(result.twkbBBox) == 0 && cap(result.twkbContents) == 0 && result.ctype == ite(hasZ, ite(hasM, 3, 1), ite(hasM, 2, 0))
+
+//@ func copytwkbWriter
+//@   requires TwInv(other)
+//@   ensures result != nil && fresh(result) && TwInv(result) && result.ctype == other.ctype && cap(result.twkbHeaders) == 0 && cap(result.twkbBBox) == 0 && cap(result.twkbContents) == 0
+
+//@ func (*twkbWriter).writePointArray
+//@   split w.dimensions 2 3 4
+//@   requires TwInv(w) && numPoints >= 0 && len(coords) >= numPoints * w.dimensions
+//@   modifies w, w.twkbContents
+//@   ensures TwBody(w)
+//@   loop 0 invariant 0 <= i && i <= numPoints && c == i * w.dimensions && TwBody(w)
+//@   loop 1 invariant 0 <= d && d <= w.dimensions && 0 <= i && i < numPoints && c == i * w.dimensions + d && TwBody(w)
+
+//@ func (*twkbWriter).writeSinglePointArray
+//@   requires TwInv(w) && len(coords) >= w.dimensions
+//@   modifies w, w.twkbContents
+//@   ensures TwBody(w)
+
+// only a non-empty point has ordinates to write
+//@ func (*twkbWriter).writePointCoords
+//@   requires TwInv(w)
+//@   requires pt.coords.Type == w.ctype
+//@   requires pt.full
+//@   modifies w, w.twkbContents
+//@   ensures TwBody(w)
+
+//@ func (*twkbWriter).writeLineStringCoords
+//@   requires TwInv(w) && ls.seq.ctype == w.ctype
+//@   modifies w, w.twkbContents
+//@   ensures TwBody(w)
+
+//@ func (*twkbWriter).writeRing
+//@   requires TwInv(w) && ls.seq.ctype == w.ctype
+//@   modifies w, w.twkbContents
+//@   ensures TwBody(w)
+
+//@ func (*twkbWriter).writePolygonRings
+//@   requires TwInv(w) && poly.ctype == w.ctype
+//@   modifies w, w.twkbContents
+//@   ensures TwBody(w)
+//@   loop 0 invariant 0 <= i && i <= numRings && numRings == max(0, len(poly.rings) - 1) && TwBody(w)
+
+//@ func (*twkbWriter).writeIsEmptyHeader
+//@   requires TwInv(w)
+//@   modifies w, w.twkbHeaders
+//@   ensures TwBody(w)
+
+//@ func (*twkbWriter).writeInitialHeaders
+//@   requires TwInv(w)
+//@   modifies w, w.twkbHeaders
+//@   ensures TwBody(w)
+
+//@ func (*twkbWriter).writeBBoxHeader
+//@   split w.dimensions 2 3 4
+//@   requires TwInv(w)
+//@   modifies w, w.twkbBBox
+//@   ensures TwBody(w)
+//@   loop 0 invariant 0 <= d && d <= w.dimensions && 0 <= n && n <= 20 * d && TwBody(w)
+
+//@ func (*twkbWriter).writeSizeHeader
+//@   requires TwInv(w)
+//@   modifies w, w.twkbHeaders
+//@   ensures TwBody(w)
+
+//@ func (*twkbWriter).writeAdditionalHeaders
+//@   requires TwInv(w)
+//@   modifies w, w.twkbHeaders, w.twkbBBox
+//@   ensures TwBody(w)
+
+//@ func (*twkbWriter).mergeBBox
+//@   split w.dimensions 2 3 4
+//@   requires TwInv(w) && sub != nil
+//@   modifies w
+//@   ensures TwInv(w) && onlychanged(w, bboxValid, bboxMin, bboxMax)
+//@   loop 0 invariant 0 <= d && d <= w.dimensions && TwInv(w) && onlychanged(w, bboxValid, bboxMin, bboxMax)
+
+//@ func (*twkbWriter).writePoint
+//@   requires TwInv(w)
+//@   modifies w, w.twkbHeaders, w.twkbContents
+//@   ensures TwBody(w)
+//@ func (*twkbWriter).writeLineString
+//@   requires TwInv(w)
+//@   modifies w, w.twkbHeaders, w.twkbContents
+//@   ensures TwBody(w)
+//@ func (*twkbWriter).writePolygon
+//@   requires TwInv(w)
+//@   modifies w, w.twkbHeaders, w.twkbContents
+//@   ensures TwBody(w)
+//@ func (*twkbWriter).writeMultiPoint
+//@   requires TwInv(w)
+//@   modifies w, w.twkbHeaders, w.twkbContents
+//@   ensures TwBody(w)
+//@   loop 0 invariant 0 <= i && i <= numPoints && numPoints == len(mp.points) && TwBody(w)
+//@ func (*twkbWriter).writeMultiLineString
+//@   requires TwInv(w)
+//@   modifies w, w.twkbHeaders, w.twkbContents
+//@   ensures TwBody(w)
+//@   loop 0 invariant 0 <= i && i <= numLineStrings && numLineStrings == len(ml.lines) && TwBody(w)
+//@ func (*twkbWriter).writeMultiPolygon
+//@   requires TwInv(w)
+//@   modifies w, w.twkbHeaders, w.twkbContents
+//@   ensures TwBody(w)
+//@   loop 0 invariant 0 <= i && i <= numPolygons && numPolygons == len(mp.polys) && TwBody(w)
+//@ func (*twkbWriter).writeGeometryCollection
+//@   requires TwInv(w)
+//@   modifies w, w.twkbHeaders, w.twkbContents
+//@   ensures TwBody(w)
+//@   loop 0 invariant 0 <= i && i <= numGeometries && numGeometries == len(gc.geoms) && TwBody(w)
+//@ func (*twkbWriter).writeGeometryByType
+//@   requires TwInv(w)
+//@   modifies w, w.twkbHeaders, w.twkbContents
+//@   ensures TwBody(w)
+//@ func (*twkbWriter).writeGeometry
+//@   requires TwInv(w)
+//@   modifies w, w.twkbHeaders, w.twkbBBox, w.twkbContents
+//@   ensures TwBody(w)
